@@ -167,6 +167,29 @@ class Gates:
         self.P = P
         self.memo = {}
         self.used = set()      # (callee, param index, kind) summaries that some rule relied on
+        # a summary evaluated while one of its callees was cut off (depth limit, or a function of a
+        # call cycle still being evaluated) may be pessimistic: it is returned but not cached, so the
+        # order in which rules ask cannot turn one cut-off into a lasting `no gate`.
+        self._progress = set()
+        self._cut = False
+
+    def _summarise(self, key, depth, compute):
+        if key in self.memo:
+            return self.memo[key]
+        if key in self._progress or depth > 4:
+            self._cut = True
+            return False
+        self._progress.add(key)
+        outer, self._cut = self._cut, False
+        try:
+            res = compute()
+        finally:
+            self._progress.discard(key)
+        cut = self._cut
+        self._cut = outer or cut
+        if res or not cut:
+            self.memo[key] = res          # `True` relied on a subset of the sanitizing edges: sound either way
+        return res
 
     def param_index(self, fn, name):
         for i, p in enumerate(fn.params):
@@ -177,17 +200,16 @@ class Gates:
     # ---- predicate: param < K
     def bounds_param(self, g, i, K, depth=0):
         key = ('lt', g.name, i, K)
-        if key in self.memo:
-            return self.memo[key]
-        if depth > 4 or i >= len(g.params):
-            return False      # not cached: a shallower query may still succeed
-        self.memo[key] = False
-        v = g.params[i]['name']
-        san = self.sanitizing_edges_lt(g, v, K, depth)
-        w = find_path(g, 'entry', lambda ev, facts: 'target' if ev.k == 'ret' and ret_class(g, ev, facts) in ('zero', 'unknown', 'void') else None,
-                      edge_ok=lambda b, s, label: (b.id, label) not in san)
-        self.memo[key] = w is None and bool(san)
-        return self.memo[key]
+        if i >= len(g.params):
+            return False
+
+        def compute():
+            v = g.params[i]['name']
+            san = self.sanitizing_edges_lt(g, v, K, depth)
+            w = find_path(g, 'entry', lambda ev, facts: 'target' if ev.k == 'ret' and ret_class(g, ev, facts) in ('zero', 'unknown', 'void') else None,
+                          edge_ok=lambda b, s, label: (b.id, label) not in san)
+            return w is None and bool(san)
+        return self._summarise(key, depth, compute)
 
     def sanitizing_edges_lt(self, fn, v, K, depth=0):
         san = set(bound_edges(fn, v, K))
@@ -207,17 +229,16 @@ class Gates:
     def typed_param(self, g, i, type_const, depth=0):
         """g returns 0 => signal_info[param_i].signal_def.signal_type == type_const"""
         key = ('typed', g.name, i, type_const)
-        if key in self.memo:
-            return self.memo[key]
-        if depth > 4 or i >= len(g.params):
+        if i >= len(g.params):
             return False
-        self.memo[key] = False
-        v = g.params[i]['name']
-        san = self.sanitizing_edges_typed(g, v, type_const, depth)
-        w = find_path(g, 'entry', lambda ev, facts: 'target' if ev.k == 'ret' and ret_class(g, ev, facts) in ('zero', 'unknown', 'void') else None,
-                      edge_ok=lambda b, s, label: (b.id, label) not in san)
-        self.memo[key] = w is None and bool(san)
-        return self.memo[key]
+
+        def compute():
+            v = g.params[i]['name']
+            san = self.sanitizing_edges_typed(g, v, type_const, depth)
+            w = find_path(g, 'entry', lambda ev, facts: 'target' if ev.k == 'ret' and ret_class(g, ev, facts) in ('zero', 'unknown', 'void') else None,
+                          edge_ok=lambda b, s, label: (b.id, label) not in san)
+            return w is None and bool(san)
+        return self._summarise(key, depth, compute)
 
     def sanitizing_edges_typed(self, fn, v, type_const, depth=0):
         san = set()
